@@ -19,6 +19,10 @@ var _ policy.Executor[any] = &executor[any]{}
 
 func (e *executor[R]) PreExecute(exec policy.ExecutionInternal[R]) *common.PolicyResult[R] {
 	if err := e.AcquirePermitWithMaxWait(exec.Context(), e.maxWaitTime); err != nil {
+		// Report the cause of a cancellation, such as a timeout or ExecutionResult.Cancel, rather than a bare context error
+		if canceled, cancelResult := exec.IsCanceledWithResult(); canceled && cancelResult != nil {
+			return cancelResult
+		}
 		if e.onFull != nil && errors.Is(err, ErrFull) {
 			e.onFull(failsafe.ExecutionEvent[R]{
 				ExecutionAttempt: exec.CopyWithResult(nil),
